@@ -338,8 +338,11 @@ class BaseTemplate:
     def digest(self, body: str, names: Collection[str]) -> str:
         class_name = type(self).__name__.encode('utf-8')
         sha = get_pkg_digest()
+        # The class name comes first and is terminated: with the body
+        # directly followed by the class name, different (body, class)
+        # pairs could spell the same bytes.
+        sha.update(class_name + b'\0')
         sha.update(body.encode('utf-8', 'surrogatepass'))
-        sha.update(class_name)
         digest = sha.hexdigest()
 
         filename = str(self.filename)
